@@ -169,3 +169,30 @@ func Keys[K ~int, V any](m map[K]V) []K {
 	}
 	return out
 }
+
+// MapOrder stands in for Go's randomised map iteration where the order can reach the outside: keys in
+// ascending order while the clock is fine (the caller sorts by distinct instants anyway), a seeded
+// permutation under a coarse clock (Config.ClockGrain), when ties let the iteration order through.
+func MapOrder[K ~int32, V any](m map[K]V) []K {
+	ks := make([]K, 0, len(m))
+	for k := range m {
+		ks = append(ks, k)
+	}
+	sort.Slice(ks, func(i, j int) bool { return ks[i] < ks[j] })
+	s := cur.Load()
+	if s == nil || len(ks) < 2 {
+		return ks
+	}
+	s.mu.Lock()
+	active := s.active && !s.cfg.PassThrough && s.cfg.ClockGrain > 1
+	s.mu.Unlock()
+	if !active {
+		return ks
+	}
+	p := s.Perm(len(ks))
+	out := make([]K, len(ks))
+	for i, j := range p {
+		out[i] = ks[j]
+	}
+	return out
+}
